@@ -19,7 +19,6 @@ use std::io::{self, Read, Write};
 
 extern crate alloc;
 use alloc::format;
-use alloc::vec;
 use alloc::vec::Vec;
 
 /// Magic bytes identifying an ELOG file: "ELOG".
@@ -111,11 +110,24 @@ pub fn write_elog_header<W: Write>(w: &mut W, hdr: &ElogHeader) -> io::Result<()
 /// Returns an error if the frame is too large, reading fails, or the payload is truncated.
 #[cfg(feature = "std")]
 pub fn read_elog_frame<R: Read>(r: &mut R) -> io::Result<Option<Vec<u8>>> {
+    // A log ends cleanly only *between* frames. `read_exact` cannot tell
+    // "0 bytes left" from "1-3 bytes of a torn length prefix", so read the
+    // prefix byte-wise: 0 bytes => end of log, 1-3 bytes => truncated log.
     let mut len_bytes = [0u8; 4];
-    match r.read_exact(&mut len_bytes) {
-        Ok(()) => {}
-        Err(e) if e.kind() == io::ErrorKind::UnexpectedEof => return Ok(None),
-        Err(e) => return Err(e),
+    let mut filled = 0usize;
+    while filled < len_bytes.len() {
+        match r.read(&mut len_bytes[filled..]) {
+            Ok(0) if filled == 0 => return Ok(None),
+            Ok(0) => {
+                return Err(io::Error::new(
+                    io::ErrorKind::UnexpectedEof,
+                    "truncated ELOG frame length",
+                ));
+            }
+            Ok(n) => filled += n,
+            Err(e) if e.kind() == io::ErrorKind::Interrupted => {}
+            Err(e) => return Err(e),
+        }
     }
     let len = u32::from_le_bytes(len_bytes) as usize;
     if len > MAX_FRAME_LEN {
@@ -125,8 +137,16 @@ pub fn read_elog_frame<R: Read>(r: &mut R) -> io::Result<Option<Vec<u8>>> {
         ));
     }
 
-    let mut buf = vec![0u8; len];
-    r.read_exact(&mut buf)?;
+    // Grow with the bytes actually present instead of trusting the declared
+    // length: a 4-byte input declaring 10 MiB must not allocate 10 MiB.
+    let mut buf = Vec::new();
+    let got = r.by_ref().take(len as u64).read_to_end(&mut buf)?;
+    if got != len {
+        return Err(io::Error::new(
+            io::ErrorKind::UnexpectedEof,
+            "truncated ELOG frame",
+        ));
+    }
     Ok(Some(buf))
 }
 
